@@ -792,7 +792,7 @@ func init() {
 	core.Register(&core.Check{
 		ID:          "C03",
 		Level:       "exploration",
-		Rule:        "same corpus as C02; oracle: print(parse(print(parse(t)))) == print(parse(t)) byte for byte in normal and compact mode, printing the same tree three times gives the same bytes, normal-mode output ends with exactly one newline; plus interning histories: every permutation of every subset of <=4 of 12 inputs whose literals collide across token types, each input formatted after each prefix of the history and compared with formatting it first after token.Init(). Non-trivial = accepted by the parser; distinct by text.",
+		Rule:        "same corpus as C02; oracle: print(parse(print(parse(t)))) == print(parse(t)) byte for byte in normal and compact mode, printing the same tree three times gives the same bytes, normal-mode output ends with exactly one newline; plus interning histories: every permutation of every subset of <=4 of 12 inputs whose literals collide across token types, each input formatted after each prefix of the history and compared with formatting it first after token.Init(). Non-trivial = accepted by the parser; distinct by text. Histories: pairs of >256-byte literals differing in one byte at every position; every ordered pair of rejected inputs (too deep, syntax errors, incomplete, illegal bytes) before valid ones; every sequence of <=3 {format, compact format, run} actions through repl.EvalOne over canonical scripts with macros: each result equals the action done first in a process.",
 		Assume:      []string{"Go map iteration order is not ownable: the printer ranges over no map (MapLiteral.Order is a slice); repetition (3 prints) is the only evidence for that sub-clause"},
 		QuickCap:    100 * time.Second,
 		ThoroughCap: 20 * time.Minute,
